@@ -17,6 +17,7 @@
 From Coq Require Import ZArith List Bool.
 Import ListNotations.
 From GV Require Import Common.Wire.
+From GV Require gen.Gen_datamut.
 Open Scope Z_scope.
 
 Definition cid := Z.
@@ -441,6 +442,78 @@ Definition run (ops : list op) (s : st) : st := fold_left (fun acc o => fst (ste
 Definition init (m : mode) (c : option coords) (pool : list (cid * label)) (dl : Z) : st :=
   mkst [] [] [] [] c [] pool [] dl m [] 100 [] None false.
 
+
+(* ---------- the same calls through the code REGENERATED from glue/core/data.py on every run
+   (coq/gen/Gen_datamut.v: Data.remove_component, _removed_derived_that_depend_on, reorder_components, update_id,
+   update_components), instantiated with this model's state ---------- *)
+Definition cv_msg (m : Gen_datamut.dm_msg) : msg :=
+  match m with
+  | Gen_datamut.DataRemoveComponentMessage c => MRemove c
+  | Gen_datamut.ComponentsChangedMessage => MChanged
+  | Gen_datamut.DataAddComponentMessage c => MAdd c
+  | Gen_datamut.ComponentReplacedMessage o n => MReplaced o n
+  | Gen_datamut.DataReorderComponentMessage l => MReorder l
+  | Gen_datamut.NumericalDataChangedMessage l => MNumerical (Some l)
+  end.
+Definition cv_exc (e : Gen_datamut.dm_exc) : pyerr :=
+  match e with
+  | Gen_datamut.DmValueError => ValueError
+  | Gen_datamut.DmTypeError => TypeError
+  | Gen_datamut.DmIncompatibleAttribute => IncompatibleAttribute
+  end.
+Definition cv_res (r : Gen_datamut.dm_result) : result :=
+  match r with Gen_datamut.DmOk => ROk | Gen_datamut.DmRaise e => RErr (cv_exc e) end.
+Definition env17 : Gen_datamut.dm_env st kind (cid * kind) (list Z) := {|
+  Gen_datamut.dm_K_default := KMain [];
+  Gen_datamut.dm_get_components := comps;
+  Gen_datamut.dm_set_components := fun v s => set_comps s v;
+  Gen_datamut.dm_get_pixel_component_ids := pixel;
+  Gen_datamut.dm_set_pixel_component_ids := fun v s => set_pixel s v;
+  Gen_datamut.dm_get_world_component_ids := world;
+  Gen_datamut.dm_set_world_component_ids := fun v s => set_world s v;
+  Gen_datamut.dm_get_shape := shape;
+  Gen_datamut.dm_set_shape := fun v s => set_shape s v;
+  Gen_datamut.dm_hub_is_none := fun s => match hub s with NoHub => true | _ => false end;
+  Gen_datamut.dm_broadcast := fun m s => emit (cv_msg m) s;      (* the hub queues or delivers *)
+  Gen_datamut.dm_clear_mask_caches := fun s => s;                (* the mask cache is not part of the structure *)
+  Gen_datamut.dm_is_derived := is_derived;
+  Gen_datamut.dm_link_from_ids := from_of;
+  Gen_datamut.dm_comp_shape := cshape;
+  Gen_datamut.dm_get_component := fun s c => Gen_datamut.dm_getitem (KMain []) (comps s) c;
+  Gen_datamut.dm_resolve_component := fun s c => match assoc c (comps s) with Some k => Some (c, k) | None => None end;
+  Gen_datamut.dm_set_data := fun h sh s => set_comps s (put (fst h) (KMain sh) (comps s));
+  Gen_datamut.dm_data_shape := fun sh => sh;
+  Gen_datamut.dm_parent_is_none := fun c s => negb (memz c (parents s));
+  Gen_datamut.dm_set_parent := fun c s => set_parents s (c :: parents s);
+  Gen_datamut.dm_map_links := fun f s =>
+    set_clinks (set_comps s (map (fun ck => (fst ck, match snd ck with KDerived from => KDerived (fst (f (from, -1))) | k => k end)) (comps s)))
+               (map f (clinks s));
+  Gen_datamut.dm_out_of_fuel := fun c s => if has_key c (comps s) then set_stuck s true else s
+|}.
+Definition g_remove_component (c : cid) (s : st) : st := Gen_datamut.remove_component env17 (length (comps s)) c s.
+Definition g_reorder (l : list cid) (s : st) : st * result :=
+  let '(s1, r) := Gen_datamut.reorder_components env17 l s in (s1, cv_res r).
+(* update_id onto an id already in use is outside the modelled domain (as in [update_id]) *)
+Definition g_update_id (o n : cid) (s : st) : st * result :=
+  if negb (o =? n) && used o s && used n s then (s, RUnmodelled) else (Gen_datamut.update_id env17 o n s, ROk).
+(* update_components on a component that is not a stored array of this dataset is outside the modelled domain:
+   [step_g] takes that decision from [update_comps] *)
+Definition g_update_comps (l : list (cid * list Z)) (s : st) : st * result :=
+  let '(s1, r) := Gen_datamut.update_components env17 l s in (s1, cv_res r).
+Definition step_g (o : op) (s0 : st) : st * result :=
+  let s := set_log s0 [] in
+  match o with
+  | ORemove c => (g_remove_component c s, ROk)
+  | OReorder l => g_reorder l s
+  | OUpdateId o n => g_update_id o n s
+  | OUpdateComps l => match update_comps l s with
+                      | (_, RUnmodelled) => (s, RUnmodelled)
+                      | _ => g_update_comps l s
+                      end
+  | _ => step o s0
+  end.
+Definition run_g (ops : list op) (s : st) : st := fold_left (fun acc o => fst (step_g o acc)) ops s.
+
 (* ---------- wire ---------- *)
 Definition dec_crd (t : tree) : option coords :=
   match t with T 1 [T i _; T k _; T n _] => Some (Build_coords i k n) | _ => None end.
@@ -509,14 +582,14 @@ Definition enc_state (finds : list label) (s : st) : tree :=
         leaf (dlabel s);
         leaf (of_bool (stuck s)) ].
 
-Fixpoint run_trace (finds : list label) (ops : list tree) (s : st) : list tree :=
+Fixpoint run_trace (gen : bool) (finds : list label) (ops : list tree) (s : st) : list tree :=
   match ops with
   | [] => []
   | t :: r =>
     match dec_op t with
     | None => [err (-2)]
-    | Some o => let '(s1, res) := step o s in
-                T 0 [enc_result res; T 0 (map enc_msg (log s1)); enc_state finds s1] :: run_trace finds r s1
+    | Some o => let '(s1, res) := (if gen then step_g o s else step o s) in
+                T 0 [enc_result res; T 0 (map enc_msg (log s1)); enc_state finds s1] :: run_trace gen finds r s1
     end
   end.
 
@@ -525,6 +598,10 @@ Definition run_case (t : tree) : tree :=
   match t with
   | T 1 [T m _; c; pool; finds; T dl _; T _ ops] =>
     let s := init (dec_mode m) (dec_crd c) (map (fun k => (tag (kid 0 k), tag (kid 1 k))) (kids pool)) dl in
-    T 0 (enc_state (to_zs finds) s :: run_trace (to_zs finds) ops s)
+    T 0 (enc_state (to_zs finds) s :: run_trace false (to_zs finds) ops s)
+  (* the same case with remove_component / reorder_components / update_id / update_components taken from the generated code *)
+  | T 2 [T m _; c; pool; finds; T dl _; T _ ops] =>
+    let s := init (dec_mode m) (dec_crd c) (map (fun k => (tag (kid 0 k), tag (kid 1 k))) (kids pool)) dl in
+    T 0 (enc_state (to_zs finds) s :: run_trace true (to_zs finds) ops s)
   | _ => err (-2)
   end.
